@@ -247,7 +247,11 @@ def numba_newton_raphson(
                 iterates[2],
             )
 
-        if (absolute_difference < atol) & (relative_difference < rtol):
+        # An Aitken extrapolation step can be small without the iterates having
+        # converged; as in the fixed point solvers it does not count as convergence.
+        if (
+            (absolute_difference < atol) & (relative_difference < rtol)
+        ) and not aitken_step:
             break
 
     else:
